@@ -74,6 +74,53 @@ def rules(ctx, db):
         ts = [bb for bb, t in calls(f, r"^flume::Sender::<T>::try_send$")]
         ok = len(sw) == 1 and len(ts) == 1 and guarded_by_bool(f, ts[0], r"AtomicBool::swap$|Atomic\w*(::<.*>)?::swap$", False) is not None
         ctx.ob("R2", "stop-single-winner", ok, "only the caller that flips `stopping` sends the stop signal", f)
+    # Receiver::recv: biased select, stop first; a disconnected message channel counts as Stop
+    rcv = [f for f in db.fns.values() if db.root_fn(f).name == "compio_actor::mailbox::receiver::Receiver::<A>::recv"]
+    if not rcv:
+        ctx.missing("R2", "Receiver::recv")
+    else:
+        arrs = []
+        for f in rcv:
+            for bi, si, st in f.stmts():
+                r = st.get("r", {})
+                if r.get("k") == "agg" and r.get("x") == "array" and len(r.get("ops", [])) == 2:
+                    arrs.append((f, r))
+        okb = False
+        for f, r in arrs:
+            names = []
+            for o in r["ops"]:
+                pl = op_place(o)
+                flds = set()
+                if pl is not None:
+                    for q in data_deps(f, pl["l"])[2]:
+                        flds |= {e[2] for e in q["p"] if isinstance(e, list) and e[0] == "f"}
+                names.append(flds & {"stop", "message"})
+            if names == [{"stop"}, {"message"}]:
+                okb = True
+        shuffled = any(calls(f, r"random::shuffle$|::shuffle$") for f in rcv)
+        ctx.ob("R2", "recv-prefers-stop", okb and not shuffled,
+               "the receive polls the stop channel before the message channel (biased select): a stop request overtakes queued "
+               "messages and is never starved by a full mailbox", rcv[0])
+        has_stop_on_err = False
+        for f in rcv:
+            for bi, si, st in f.stmts():
+                r = st.get("r", {})
+                if r.get("k") == "agg" and r.get("var") == "Stop" and (r.get("adt") or "").endswith("MailboxEvent"):
+                    has_stop_on_err = True
+        ctx.ob("R2", "recv-maps-closed-channel-to-stop", has_stop_on_err, "a closed channel ends the actor instead of spinning", rcv[0])
+    cw = [f for f in db.fns.values() if f.kind == "coroutine" and db.root_fn(f).name == "compio_actor::mailbox::call::call_with"]
+    if not cw:
+        ctx.missing("R2", "call_with")
+    for f in cw:
+        snd = [bb for bb, t in f.calls() if call_matches(t, r"FnOnce::call_once$|FnOnce<.*>::call_once$")]
+        aw = [bb for bb, t in calls(f, r"core::future::future::Future::poll$") if t.get("ga") and "oneshot::Receiver" in t["ga"][0]]
+        ctx.ob("R2", "call-awaits-reply-only-after-accepted-send", bool(snd) and bool(aw) and all(f.cfg.dominates(snd[0], a) for a in aw),
+               "the reply is awaited only after the call was handed to the mailbox; a refused call returns the error at once", f)
+        kinds = {st["r"].get("var") for bi, si, st in f.stmts() if st.get("r", {}).get("k") == "agg" and (st["r"].get("adt") or "").endswith("CallError")}
+        kinds |= {st["r"].get("var") for g in db.fns.values() if db.root_fn(g).name == "compio_actor::mailbox::call::call_with"
+                  for bi, si, st in g.stmts() if st.get("r", {}).get("k") == "agg" and (st["r"].get("adt") or "").endswith("CallError")}
+        ctx.ob("R2", "dropped-reply-becomes-NoReply", "NoReply" in kinds,
+               "a reply sender dropped without an answer (actor stopped / failed) is reported as CallError::NoReply, not as a hang", f)
     REG = r"^compio_actor::cluster::registry::Registry$"
     rs = db.methods(self_adt=REG, name="reserve", trait="")
     if not rs:
